@@ -126,11 +126,13 @@ def hasLeadingZeros (s : Bytes) : Bool :=
   | c :: _ :: _ => c = cZero
   | _ => false
 
-/-- Int64 wrap-around of a sum/negation of in-range values. -/
-def wrap64 (x : Int) : Int :=
-  if x > maxI64 then x - 18446744073709551616
-  else if x < minI64 then x + 18446744073709551616
-  else x
+/-- `uint64(x)` of an int64 (and reduction of a uint64 expression): the value modulo 2^64. -/
+def u64 (x : Int) : Int := x % 18446744073709551616
+
+/-- `int64(u)` of a uint64 expression: the signed reading of the value modulo 2^64. -/
+def i64 (x : Int) : Int :=
+  if x % 18446744073709551616 ≥ 9223372036854775808 then x % 18446744073709551616 - 18446744073709551616
+  else x % 18446744073709551616
 
 /-! ## syntax.SplitBraces -/
 
@@ -269,13 +271,16 @@ def unwind : List Frame → List Part → Word → Word
     let sep : Part := if f.seq then .lit dots else .lit [cComma]
     unwind fs (Part.lit [cLB] :: joinParts sep (f.done ++ [f.cur ++ carry])) top
 
-/-- `syntax.SplitBraces` on a word made of one literal. -/
+/-- `syntax.SplitBraces` on a word made of one literal.  The rest of the literal after the last
+    brace character is added unless empty (`flush`); when no `BraceExp` made it into `top.Parts`
+    the word is left untouched and `false` is returned. -/
 def splitBraces (w : Bytes) : Word × Bool :=
   if ¬ cLB ∈ w then ([.lit w], false)
   else
     let (st, pend) := scan { top := [], stack := [] } .normal [] w
-    let st := st.add (.lit pend)
-    (unwind st.stack [] st.top, true)
+    let st := st.flush pend
+    let top := unwind st.stack [] st.top
+    if hasBrace top then (top, true) else ([.lit w], false)
 
 /-! ## expand.bracesSeqRec / BracesSeq -/
 
@@ -292,16 +297,16 @@ structure SeqParams where
   «from» : Int
   to : Int
   width : Nat
-  incr : Int
+  step : Nat
   upward : Bool
 deriving Repr
 
-/-- The loop increment computed from the parsed third element `n` (1 when absent):
-    `if n < 0 { n = -n }; if n != 0 { incr = n }; if !upward { incr = -incr }` in Int64. -/
-def goIncr (n : Int) (upward : Bool) : Int :=
-  let n := if n < 0 then wrap64 (-n) else n
-  let incr := if n ≠ 0 then n else 1
-  if !upward then wrap64 (-incr) else incr
+/-- The step computed from the parsed third element `n` (1 when absent), a uint64:
+    `if n < 0 { step = -uint64(n) } else if n > 0 { step = uint64(n) }`. -/
+def goStep (n : Int) : Nat :=
+  if n < 0 then (u64 (-(u64 n))).toNat
+  else if n > 0 then (u64 n).toNat
+  else 1
 
 /-- The parsed third element of a sequence (`n, _ := strconv.ParseInt(…)`), 1 when absent. -/
 def seqRaw (elems : List Word) : Int :=
@@ -329,8 +334,7 @@ def seqParams (elems : List Word) : Option SeqParams :=
         then max fromLit.length toLit.length else 0
       let upward := decide (fr ≤ to)
       let raw : Int := seqRaw (e0 :: e1 :: more)
-      let incr := goIncr raw upward
-      some { chars := chars, «from» := fr, to := to, width := width, incr := incr, upward := upward }
+      some { chars := chars, «from» := fr, to := to, width := width, step := goStep raw, upward := upward }
   | _ => none
 
 /-- `rune(n)`: conversion of an int64 to int32 keeps the low 32 bits. -/
@@ -357,14 +361,17 @@ def fmtSeq (sp : SeqParams) (n : Int) : Bytes :=
   else if sp.width > 0 then formatPad sp.width n
   else formatInt n
 
-def seqCond (sp : SeqParams) (n : Int) : Bool :=
-  (sp.upward && decide (n ≤ sp.to)) || (!sp.upward && decide (n ≥ sp.to))
-
-/-- The values `n` takes in `for n := from; cond(n); n += incr` (Int64 arithmetic), at most `k`
-    of them. -/
+/-- The values `n` takes in `for n := from; ; { …; if remaining < step { break }; n ± = step }`
+    (uint64 arithmetic for the remaining distance and for the update), at most `k` of them. -/
 def seqVals (sp : SeqParams) : Nat → Int → List Int
   | 0, _ => []
-  | k + 1, n => if seqCond sp n then n :: seqVals sp k (wrap64 (n + sp.incr)) else []
+  | k + 1, n =>
+    n :: (if sp.upward then
+            (if u64 (u64 sp.to - u64 n) < (sp.step : Int) then []
+             else seqVals sp k (i64 (u64 n + sp.step)))
+          else
+            (if u64 (u64 n - u64 sp.to) < (sp.step : Int) then []
+             else seqVals sp k (i64 (u64 n - sp.step))))
 
 /-- `for _, elem := range br.Elems { … expand(&next) … }` with `budget` yields left. -/
 def altLoop (f : Nat → Word → Option (List Word)) (rest : List Part) :
@@ -457,15 +464,6 @@ def idealSeq (fr to : Int) (step : Nat) : List Int :=
 /-- The step a third element `inc` stands for: its absolute value, 1 for 0 (or when absent). -/
 def idealStep (inc : Int) : Nat := if inc = 0 then 1 else inc.natAbs
 
-/-- No Int64 overflow in the Go loop `for n := from; …; n += incr`: the last element of the
-    ideal sequence, `to ∓ (|to − fr| mod s)`, plus (minus) the step is still an Int64. -/
-def SeqNoOverflow (fr to : Int) (s : Nat) : Prop :=
-  if fr ≤ to then to - (((to - fr).natAbs % s : Nat) : Int) + s ≤ maxI64
-  else minI64 ≤ to + (((fr - to).natAbs % s : Nat) : Int) - s
-
-instance (fr to : Int) (s : Nat) : Decidable (SeqNoOverflow fr to s) := by
-  unfold SeqNoOverflow; infer_instance
-
 /-- The texts a sequence node stands for: the ideal progression, formatted as Go formats. -/
 def seqTexts (elems : List Word) : List Bytes :=
   match seqParams elems with
@@ -515,25 +513,6 @@ def wf : List Part → Bool
 def wfElems : List (List Part) → Bool
   | [] => true
   | e :: es => wf e && wfElems es
-end
-
-/-- The Go loop of this sequence node does not overflow (and `-n` on the increment does not). -/
-def seqNoOv (elems : List Word) : Bool :=
-  match seqParams elems with
-  | none => true
-  | some sp => decide (seqRaw elems ≠ minI64 ∧ SeqNoOverflow sp.from sp.to (idealStep (seqRaw elems)))
-
-mutual
-/-- No sequence node of the word overflows Int64 in the Go loop. -/
-def noOvPart : Part → Bool
-  | .lit _ => true
-  | .brace seq elems => (if seq then seqNoOv elems else true) && noOvElems elems
-def noOv : List Part → Bool
-  | [] => true
-  | p :: ps => noOvPart p && noOv ps
-def noOvElems : List (List Part) → Bool
-  | [] => true
-  | e :: es => noOv e && noOvElems es
 end
 
 /-! ## expand.FieldsSeq on a literal word -/
